@@ -19,7 +19,7 @@ CLAIMS = {
          "Necessary conditions of correct import management decided for all configurations; exactness of the import set, block layout preservation and byte output are not decided. One known finding (a path imported by two specs of one file).", "4 C07"),
  "C08": ("CFG rule on updateImports (mutation-free path, no store before an error return) + change-guard rule on every re-sort/re-spacing/re-parenthesising (path conditions) + resolver-domain rule + constant propagation through mergeDecorations against the restorer's spacing state machine + slot-order rule on decorateSelectorExpr (reaching definitions) + selector layout agreement + alias-kept rule (an alias is dropped only when none was requested)",
          "Necessary conditions of transparency decided for all inputs; byte equality and resolver accuracy are not decided. One known finding (a path imported by two specs of one file is rewritten).", "4 C08"),
- "C09": ("role-filter exhaustiveness (avoid table vs static field types in both converters), carriage rule (resolver answer and selected name stored on every returning path), path-condition specifications (propositional equivalence of return conditions over reaching definitions) of resolvePath, gotypes/goast ResolveIdent and goast's import table (callback or loop form, with a pruning rule: every import spec reaches the table), vendor anchoring, file-argument provenance (a nil file is an error, not a dereference), error discipline",
+ "C09": ("role-filter exhaustiveness (avoid table vs static field types in both converters), carriage rule (resolver answer and selected name stored on every returning path), path-condition specifications (propositional equivalence of return conditions over reaching definitions) of resolvePath, gotypes/goast ResolveIdent and goast's import table (callback or loop form, with a pruning rule: every import spec reaches the table), vendor anchoring, file-argument provenance (a nil file is an error, not a dereference; a package's file is chosen by containment), gates of the syntax-only resolver (default name resolver only when none was given, aliases read under their nil test), error discipline",
          "Decides the structural part of 'paths exactly on remote references' (which positions may ever be resolved, vendor stripping on element boundaries, errors surfacing); the classification of an identifier is a runtime fact about go/types objects and is not decided. The clause-presence rule is a frozen-fragment rule and fires on rewrites of the two small resolvers.", "4 C09"),
  "C10": ("composition of carriage rules over the typed AST: which identifier positions may be resolved (role filter), path-condition specification of resolvePath and the two decorator resolvers, dataflow rule that the resolver's answer and the selected name are stored on every returning path (reaching definitions + path conditions), per-field Clone completeness, and on the restore side the discovery scan, every-missing-import-added, unique-name, alias-flow, single-writer/reader and selector-construction rules",
          "Decides only structural necessary conditions: a reference is recorded, carried and re-bound as (package path, object name), independent of the import names of the file it came from. That the moved code type-checks and denotes the same objects needs a type checker over output programs and is not decided. One known finding (a path imported by two specs of one file).", "4 C10"),
